@@ -115,6 +115,9 @@ func c06Run(c c06Case) (fail *vlib.Failure, rs c06Stats) {
 	if pc := vlib.Catch(func() { err = other.Init(otherFrame) }); pc.Panicked || err != nil {
 		return vlib.Failf("initialising the inactive address space failed: %v %v", err, pc), rs
 	}
+	if why := m.freshRoot(otherFrame); why != "" {
+		return vlib.Failf("initialising the inactive address space: %s", why), rs
+	}
 	roots = append(roots, otherFrame.Address())
 	activePDT := PageDirectoryTable{pdtFrame: mm.Frame(m.cr3 >> 12)}
 
